@@ -124,6 +124,11 @@ func exprItems(thorough bool) []item {
 					"expr/" + e.parts[1] + "@" + plainPos[typeOf(e.parts[1])] + "/" + form(frag),
 				}
 
+				// the same expression in the plain statement position of the depth-2 set
+				if ref := map[string]string{"int": "define", "ints": "define-ints"}[e.typ]; ref != "" && ref != pos.name {
+					ex = append(ex, "expr/"+e.name+"@"+ref+"/"+form(frag))
+				}
+
 				// the inner production in the positions of this position's class
 				for _, p2 := range positions {
 					if p2.class == pos.class {
@@ -226,12 +231,9 @@ func stmtItems(thorough bool) []item {
 
 					out = append(out, item{
 						family: "stmt2", name: "stmt/" + f1.name + "+" + f2.name + "@" + ctx.name + "/" + form(frag),
-						cell: "seq-" + f1.class + "+" + f2.class + "@" + ctx.class,
-						explain: []string{
-							"stmt/" + f1.name + "@" + ctx.name + "/" + form(frag),
-							"stmt/" + f2.name + "@" + ctx.name + "/" + form(frag),
-						},
-						src: build("", seqBody([]stmtForm{f1, f2}, ctx), frag), frag: frag,
+						cell:    "seq-" + f1.class + "+" + f2.class + "@" + ctx.class,
+						explain: pairExplain(f1.name, f2.name, ctx.class),
+						src:     build("", seqBody([]stmtForm{f1, f2}, ctx), frag), frag: frag,
 						size: 1000 + len(f1.src) + len(f2.src) + len(ctx.src), nontriv: true,
 					})
 				}
@@ -392,4 +394,24 @@ func itoa(i int) string {
 	}
 
 	return s
+}
+
+// pairExplain: a pair of statement forms is explained by either form failing
+// alone in a context of the same class, as a program or as a fragment (a
+// statement that is the last thing of a file can behave differently from one
+// that is followed by another).
+func pairExplain(f1, f2, class string) []string {
+	var out []string
+
+	for _, c := range contexts {
+		if c.class != class {
+			continue
+		}
+
+		for _, f := range []string{f1, f2} {
+			out = append(out, "stmt/"+f+"@"+c.name+"/program", "stmt/"+f+"@"+c.name+"/fragment")
+		}
+	}
+
+	return out
 }
